@@ -48,6 +48,15 @@ Reserved == {F(sq, <<Fk(f, a, <<WArg(kw, obj)>>)>>) : sq \in {V("s"), V("m"), S(
 Callables == {F(sq, <<Fl(f, <<V("cb")>>)>>) : sq \in {V("s"), V("os"), V("m")}, f \in KeyF \cup {"find", "has", "find_index", "join", "default", "append"}}
              \cup {P(V("cb")), F(V("cb"), <<Fl("upcase", <<>>)>>), F(V("cb"), <<Fl("size", <<>>)>>), P(Path(<<Key("cb"), Key("__call__")>>))}
 PlainF == {F(r, <<Fl(f, <<>>)>>) : r \in {V("m"), V("o"), V("s"), V("os")}, f \in {"size", "first", "last", "join", "upcase", "default", "reverse"}}
+\* filters that might take an object for what it can do (format itself as a date, as JSON, as a message ...)
+Ducks == {F(r, <<Fl(f, <<>>)>>) : r \in {V("m"), V("o"), V("cb"), V("os")}, f \in {"datetime", "json", "strip_html", "escape", "url_encode", "t", "gettext", "abs", "round", "currency", "decimal"}}
+         \cup {F(r, <<Fl("date", <<S(fmt)>>)>>) : r \in {V("m"), V("o"), V("cb")}, fmt \in {"%Y", "secret"}}
+         \cup {F(r, <<Fl(f, <<S("x")>>)>>) : r \in {V("m"), V("o")}, f \in {"append", "split", "pgettext", "plus", "truncate", "slice"}}
+\* messages with replacement fields that name attributes, through the translation filters
+Fields == {"{o.secret}", "{m.secret}", "{o.num}", "{o.__class__}", "{o.method}", "{0.secret}", "%(o)s {o.secret}", "{o[secret]}", "{o!r}", "{o:>{o.num}}"}
+Msgs == {F(S(m), <<Fl(f, <<>>)>>) : m \in Fields, f \in {"t", "gettext"}}
+        \cup {F(S(m), <<Fk("t", <<>>, <<WArg("o", V("o"))>>)>>) : m \in Fields}
+        \cup {F(S(m), <<Fl("ngettext", <<S(m), I(2)>>)>>) : m \in Fields} \cup {F(S(m), <<Fl("pgettext", <<S("ctx")>>)>>) : m \in Fields}
 
 LoopN == {"__class__", "__dict__", "__init__", "_keys", "keys", "it", "step", "items", "item", "parentloop", "length", "secret", "name"}
 LoopBodies == {<<NOut(P(Path(<<Key("forloop"), Key(n)>>)))>> : n \in LoopN}
@@ -72,7 +81,7 @@ Tags == {If(Path(<<Key(r), Key(n)>>), <<NText("yes")>>, <<>>, NoElse) : r \in {"
         \cup {If(Contains(V(r), S(n)), <<NText("has")>>, <<>>, NoElse) : r \in {"m", "o"}, n \in {"secret", "k", "__class__"}}
 
 MCPoolAt(i) ==
-  CASE i = 1 -> {NOut(P(e)) : e \in Paths1 \cup Paths2} \cup {NOut(e) : e \in KeyArgs \cup Lams \cup PlainF \cup Reserved \cup Callables} \cup Loops \cup Rows \cup Tags
+  CASE i = 1 -> {NOut(P(e)) : e \in Paths1 \cup Paths2} \cup {NOut(e) : e \in KeyArgs \cup Lams \cup PlainF \cup Reserved \cup Callables \cup Ducks \cup Msgs} \cup Loops \cup Rows \cup Tags
     [] i = 2 -> {NOut(P(V("a"))), NOut(P(Path(<<Key("a"), Key("__name__")>>)))}
     [] OTHER -> {}
 =============================================================================
